@@ -154,9 +154,105 @@ def _bounded():
                     'guarantee clause of the contract evaluated on the observed pre/post state',
                     H.bounded_mailbox([append, copy, move, delete, update]), stands_for=None)]
 
+# ---- dict MailboxData.update_selected: one synchronisation brings the session's view into agreement with the mailbox
+#      (the step from the proved log property to convergence)
+from . import selected as SELM  # noqa: E402
+from pyvc.values import _t, _b  # noqa: E402
+from .selected import SEL, sm_clauses, flag_set_sound, add_updates as sel_add_updates  # noqa: E402
+from .modseq import find_updated as ms_find_updated  # noqa: E402
+
+
+def _view(s):
+    return s.selected._messages
+
+
+def _has_record_since(ms, u, m):
+    return ms._uids.has(u) & (ms._uids[u] >= m)
+
+
+def _agrees(v, mbx, u):
+    """the view holds u if the mailbox does, and holds nothing the mailbox lacks except deferred expunges"""
+    return implies(mbx._messages.has(u), v._uids.has(u)) & implies(v._uids.has(u) & ~mbx._messages.has(u), v._pending_remove.has(u))
+
+
+def _agree_up_to(s):
+    """what holds between two synchronisations: for every uid WITHOUT a log record at or above the session's mod-sequence
+    the view agrees with the mailbox; with no mod-sequence yet the view holds nothing the mailbox lacks (but deferred)"""
+    mbx, v, ms = s.self, _view(s), s.self._mod_sequences
+    m = s.selected._mod_sequence
+    return ite(is_none(m),
+               forall(lambda u: implies(v._uids.has(u) & ~mbx._messages.has(u), v._pending_remove.has(u))),
+               forall(lambda u: implies(~_has_record_since(ms, u, m.val()), _agrees(v, mbx, u))))
+
+
+def _deferred_are_gone(s):
+    return forall(lambda u: implies(_view(s)._pending_remove.has(u), ~s.self._messages.has(u)))
+
+
+def _add_updates_bridged(ex, frame, e, base=None):
+    """selected.add_updates(...) through its contract, preceded by two proof steps (each an obligation of its own, then
+    available): which uids the message list passed carries -- with an explicit witness index for the comprehension"""
+    from pyvc.engine import unview as _unview
+    name = ex.c.name
+    msgs = ex.eval(e.args[0], frame)
+    me = frame.env['self']
+    mrec = _unview(me) if not isinstance(me, VRec) else me
+    mdom = ex.st.store[mrec.rid]['_messages']
+    uid_of = lambda t: _t(ex.st.heap_get(Msg.wrap(t), 'uid'))
+    u, i = z3.Int(fresh_name('bu')), z3.Int(fresh_name('bi'))
+    upd = frame.env.get('updated')
+    if upd is not None and not hasattr(upd, 'arr'):
+        upd = ex.st.read(upd.loc)           # a local container lives in a cell
+    if upd is not None and hasattr(msgs, 'comp'):
+        src, inv, seq = msgs.comp
+        pos = seq.pos
+        w = inv(pos(u))
+        ex.lemma(f'{name}/bridge/every_updated_uid_still_stored_is_in_the_list_passed',
+                 z3.ForAll([u], z3.Implies(z3.And(upd.arr[u], mdom.dom[u]),
+                                           z3.And(w >= 0, w < msgs.n, uid_of(z3.Select(msgs.arr, w)) == u))))
+        ex.lemma(f'{name}/bridge/the_list_passed_holds_only_updated_uids_still_stored',
+                 z3.ForAll([i], z3.Implies(z3.And(i >= 0, i < msgs.n), z3.And(
+                     upd.arr[uid_of(z3.Select(msgs.arr, i))], mdom.dom[uid_of(z3.Select(msgs.arr, i))],
+                     z3.Select(msgs.arr, i) == z3.Select(mdom.val, uid_of(z3.Select(msgs.arr, i)))))))
+    return ex.call_contract(sel_add_updates, e, frame)
+
+
+update_selected = Contract(
+    'C02', F, 'MailboxData.update_selected', variant='no-wait',
+    params=dict(self=MBX, selected=SEL, wait_on=NoneS()),
+    requires=ri_clauses(lambda s: s.self._mod_sequences) + sm_clauses(_view) + [
+        ('S7_flag_set_sound', lambda s: flag_set_sound(_view(s))),
+        ('LogInv', lambda s: log_inv(s.self)),
+        ('AgreeUpTo_the_sessions_mod_sequence', _agree_up_to),
+        ('deferred_expunges_are_gone_from_the_mailbox', _deferred_are_gone),
+        ('stored_messages_carry_their_uid', lambda s: forall(lambda u: implies(
+            s.self._messages.has(u), (s.wrap(s.self._messages[u]).uid == u) & (s.self._messages[u].flags_key[0] == u)))),
+    ],
+    ensures=[
+        ('the_view_is_the_mailbox_plus_deferred_expunges', lambda s: forall(lambda u: _agrees(_view(s), s.self, u))),
+        ('deferred_expunges_are_gone_from_the_mailbox', _deferred_are_gone),
+        ('nothing_is_deferred_unless_expunges_are_hidden', lambda s: implies(
+            ~s.selected._hide_expunged, _view(s)._pending_remove.is_empty())),
+        ('the_session_is_at_the_highest_mod_sequence', lambda s: ~is_none(s.selected._mod_sequence) & (
+            s.selected._mod_sequence.val() == s.self._mod_sequences._highest)),
+        ('mailbox_untouched', lambda s: (s.self._messages == s.old.self._messages) &
+         (s.self._mod_sequences._highest == s.old.self._mod_sequences._highest)),
+    ],
+    calls={'self._mod_sequences.find_updated': ms_find_updated, 'selected.add_updates': _add_updates_bridged},
+    inline={'SelectedMailbox.mod_sequence', '_ModSequenceMapping.highest'},
+    modifies=['selected'], raises_only=(), returns=SEL)
+
+
 PROPERTY = Property(
     'C02', 'Cross-session convergence: no lost, phantom or stuck updates',
-    contracts=CONTRACTS, registry=REG, bounded=_bounded(), level='proof', design_ref='6 C02',
+    contracts=CONTRACTS + [update_selected, sel_add_updates], registry=REG,
+    factories={'FSet': lambda name, attrs, ctx: frozenset()},      # Msg.flags_key (declared by contracts/selected.py) in replays
+    bounded=_bounded(), level='proof', design_ref='6 C02',
     trusted_base=['asyncio cooperative scheduling', 'model of Message.__init__/Message.copy',
-                  'FlagOp.apply through its contract (proved under C10)'],
+                  'FlagOp.apply through its contract (proved under C10)',
+                  'update_selected: the agreement of the uids without a newer log record (AgreeUpTo) between two '
+                  'synchronisations follows from the guarantee proved for every writer (composition on paper); flags of the '
+                  'cached messages are not part of the agreement proved (uids only); the wait_on branch is not under contract'],
 )
+
+
